@@ -122,6 +122,12 @@ fn walk_items(items: &[syn::Item], prefix: &str, out: &mut Vec<Value>) {
                     "span":jr(s.span()),"start":first_non_attr_start(s.span(),&s.attrs),
                     "generics": s.generics.to_token_stream().to_string()}));
             }
+            syn::Item::Type(s) => {
+                // type aliases are copied like structs (ITEM directive)
+                out.push(json!({"kind":"struct","key":format!("{}{}",prefix,s.ident),"attrs":attrs_json(&s.attrs),
+                    "span":jr(s.span()),"start":first_non_attr_start(s.span(),&s.attrs),
+                    "generics": s.generics.to_token_stream().to_string()}));
+            }
             syn::Item::Enum(s) => {
                 out.push(json!({"kind":"enum","key":format!("{}{}",prefix,s.ident),"attrs":attrs_json(&s.attrs),
                     "span":jr(s.span()),"start":first_non_attr_start(s.span(),&s.attrs),
